@@ -56,6 +56,7 @@ impl RawToken {
 }
 impl Token {
     pub closed spec fn s_raw(self) -> RawToken { self.raw_token }
+    pub closed spec fn s_type(self) -> TokenType { self.token_type }
 }
 
 // ---- models of derives on RawToken / Range / Token (trusted: derive(Clone), derive(PartialEq), derive(Default)
@@ -104,9 +105,12 @@ impl FromSpecImpl<Token> for RawToken {
 pub fn verif_format_pair(a: String, b: String) -> String { unimplemented!() }
 
 /// What get_any must do to the accumulated raw token when it hands out `t` (C09 at instruction level):
-/// the first token starts the range, every later token only moves its end.
+/// the first token starts the range, every later token only moves its end; a line terminator or a comment is not part
+/// of any statement and leaves the range alone (so a statement's range never runs onto the end of its line).
 pub closed spec fn accumulated(old_rt: RawToken, new_rt: RawToken, t: Token) -> bool {
-    if is_default_raw(old_rt) {
+    if t.token_type is Newline || t.token_type is Comment {
+        new_rt == old_rt
+    } else if is_default_raw(old_rt) {
         new_rt == t.raw_token
     } else {
         new_rt.pos.start == old_rt.pos.start && new_rt.pos.end == t.raw_token.pos.end && new_rt.file == old_rt.file
